@@ -3,6 +3,7 @@ package main
 import (
 	"fmt"
 	"go/token"
+	"go/types"
 	"sort"
 	"strings"
 
@@ -70,10 +71,99 @@ func (c *Ctx) depsOf(fn *ssa.Function, in ssa.Instruction) []Lit {
 	var out []Lit
 	for _, d := range c.controlDeps(fn, in.Block()) {
 		if l, ok := c.edgeLit(d.B, d.Succ); ok {
+			if iff, isIf := d.B.Instrs[len(d.B.Instrs)-1].(*ssa.If); isIf {
+				if ls, ok := c.conjuncts(iff.Cond, d.Succ == 0, 0); ok {
+					out = append(out, ls...)
+					continue
+				}
+			}
 			out = append(out, l)
 		}
 	}
 	return out
+}
+
+// conjuncts: when the boolean v having polarity pos can only come about as a conjunction — v is a named
+// boolean (a phi of constants and one computed operand, as && / || are lowered) or the single result of a new
+// predicate helper written that way — the literals of the conjunction, rendered in the caller's frame.
+func (c *Ctx) conjuncts(v ssa.Value, pos bool, depth int) ([]Lit, bool) {
+	if depth > 4 {
+		return nil, false
+	}
+	for {
+		u, ok := v.(*ssa.UnOp)
+		if !ok || u.Op != token.NOT {
+			break
+		}
+		v, pos = u.X, !pos
+	}
+	if call, ok := v.(*ssa.Call); ok {
+		h := call.Call.StaticCallee()
+		if h == nil || !c.isNew(h) || h.Signature.Results().Len() != 1 {
+			return nil, false
+		}
+		rets := returnsOf(h)
+		if len(rets) != 1 {
+			return nil, false
+		}
+		for _, f := range c.frames {
+			if f.Common().StaticCallee() == h {
+				return nil, false
+			}
+		}
+		c.frames = append(c.frames, call)
+		defer func() { c.frames = c.frames[:len(c.frames)-1] }()
+		if ls, ok := c.conjuncts(rets[0].Results[0], pos, depth+1); ok {
+			return ls, true
+		}
+		l := c.cond(rets[0].Results[0])
+		if !pos {
+			l = l.Neg()
+		}
+		return []Lit{l}, true
+	}
+	ph, ok := v.(*ssa.Phi)
+	if !ok {
+		return nil, false
+	}
+	if bt, ok := ph.Type().Underlying().(*types.Basic); !ok || bt.Info()&types.IsBoolean == 0 {
+		return nil, false
+	}
+	cand, n := -1, 0
+	for i, e := range ph.Edges {
+		if k, isC := e.(*ssa.Const); isC && k.Value != nil && constantBool(k) != pos {
+			continue
+		}
+		cand = i
+		n++
+	}
+	if n != 1 {
+		return nil, false
+	}
+	var out []Lit
+	e := ph.Edges[cand]
+	if _, isC := e.(*ssa.Const); !isC {
+		if ls, ok := c.conjuncts(e, pos, depth+1); ok {
+			out = append(out, ls...)
+		} else {
+			l := c.cond(e)
+			if !pos {
+				l = l.Neg()
+			}
+			out = append(out, l)
+		}
+	}
+	// the conditions under which that edge is taken (within the boolean's own function)
+	pred := ph.Block().Preds[cand]
+	for _, d := range c.controlDeps(ph.Parent(), pred) {
+		if l, ok := c.edgeLit(d.B, d.Succ); ok {
+			out = append(out, l)
+		}
+	}
+	if l, ok := c.edgeLitTo(pred, ph.Block()); ok {
+		out = append(out, l)
+	}
+	return out, len(out) > 0
 }
 
 func runC16(c *Ctx, r *Report, tier string) {
